@@ -1106,6 +1106,9 @@ pub struct WrapNode {
     pub labels: Vec<String>,
     pub func_entry: Vec<usize>,
     pub func_exit: Vec<usize>,
+    /// (entry, exit) of every function the node belongs to: the two lists of the dump are parallel
+    #[serde(default)]
+    pub func_pairs: Vec<(usize, usize)>,
     pub nexts: Vec<usize>,
     pub prevs: Vec<usize>,
     pub reg_in: BTreeMap<u8, Val>,
@@ -1129,6 +1132,7 @@ fn wrap_view(n: &NodeWrapper) -> WrapNode {
         labels: sorted_vec(n.labels.iter().cloned()),
         func_entry: sorted_vec(n.func_entry.iter().copied()),
         func_exit: sorted_vec(n.func_exit.iter().copied()),
+        func_pairs: sorted_vec((0..n.func_entry.len().max(n.func_exit.len())).map(|k| (n.func_entry.get(k).copied().unwrap_or(usize::MAX), n.func_exit.get(k).copied().unwrap_or(usize::MAX)))),
         nexts: sorted_vec(n.nexts.iter().copied()),
         prevs: sorted_vec(n.prevs.iter().copied()),
         reg_in: n.reg_values_in.iter().map(|(r, v)| (r.to_num(), val(v))).collect(),
@@ -1150,6 +1154,7 @@ pub fn wrap_view_of_cfg(v: &CfgView) -> Vec<WrapNode> {
             labels: n.labels.clone(),
             func_entry: sorted_vec(n.funcs.iter().map(|f| v.functions[*f].entry)),
             func_exit: sorted_vec(n.funcs.iter().map(|f| v.functions[*f].exit)),
+            func_pairs: sorted_vec(n.funcs.iter().map(|f| (v.functions[*f].entry, v.functions[*f].exit))),
             nexts: n.nexts.clone(),
             prevs: n.prevs.clone(),
             reg_in: n.reg_in.clone(),
